@@ -7,6 +7,7 @@ import DosModel.Model.HandlersNode
 import DosModel.Model.HandlersP2P
 import DosModel.Model.HandlersChain
 import DosModel.Model.HandlersInv
+import DosModel.Model.HandlersDoc
 
 namespace Dos.Handlers
 open Dos
@@ -354,6 +355,10 @@ def step (cfg : Cfg) (line : String) : String :=
     match bool01 u, bool01 f, k.toNat? with
     | some u, some f, some k => (getBootIps cfg u f k).show
     | _, _, _ => bad
+  | ["deep", kind, d] =>
+    match d.toNat? with
+    | some d => (deepLine cfg kind d).getD bad
+    | none => bad
   | ["mdisp", m] =>
     if m == "nil" then (messageDispatch cfg .nilMsg).show
     else if m == "sub" then (messageDispatch cfg .subscribed).show
